@@ -11,6 +11,7 @@ pub mod fmt {
     // helper function still extracts
     impl Disp for crate::shims::std::path::Display { uninterp spec fn disp(&self) -> Seq<char>; }
     impl Disp for crate::shims::std::io::Error { uninterp spec fn disp(&self) -> Seq<char>; }
+    impl Disp for crate::shims::std::io::ErrorKind { uninterp spec fn disp(&self) -> Seq<char>; }
     impl Disp for crate::shims::ssri::Integrity { uninterp spec fn disp(&self) -> Seq<char>; }
     impl Disp for crate::shims::ssri::Algorithm { uninterp spec fn disp(&self) -> Seq<char>; }
     impl Disp for bool { uninterp spec fn disp(&self) -> Seq<char>; }
